@@ -198,6 +198,17 @@ def discharge(db, b, s):
         ctx = inline.contexts_of(db, b, bi)
     except Exception:
         ctx = []
+    if not ctx:
+        # the site is in the function itself, but a private helper called on the way (`apply_outcome(req, ..)`, taking `&mut`) hides that
+        # it leaves the unwrapped place alone: decide the site with the helpers inlined (the function's own blocks keep their indices)
+        try:
+            ib = inline.inlined(db, b)
+        except Exception:
+            ib = b
+        if ib is not b and bi < len(ib.blocks) and ib.blocks[bi]["term"].get("k") == t.get("k"):
+            w = discharge(db, ib, dict(s, bi=bi, body=ib, _in_context=True))
+            if w:
+                return "with the helpers it calls inlined: %s" % w
     if ctx:
         whys = []
         for ib, cbi in ctx:
